@@ -12,6 +12,7 @@ CONSTANTS
   T = 2
   MaxTime = 0
   EarlyCancel = FALSE
+  NoTimeouts = FALSE
   Mode = "race"
   SymBreak = TRUE
   Dev_OpnTimeoutWedge = FALSE
